@@ -68,6 +68,7 @@ type Enc struct {
 	resultTerms   []Value
 	finalGuard    Term
 	inlineN       int
+	globLen       map[string]int
 	cloCellMap    map[*Frame]map[*ssa.Alloc]Value
 	loopRTs       map[*Frame]map[int]*loopRT
 }
@@ -411,6 +412,26 @@ func (e *Enc) fieldHeapName(t types.Type, i int) (string, Sort) {
 	return fmt.Sprintf("HF_%s_%d_%s", s, i, sanitize(st.Field(i).Name())), arraySort(SRef, e.sortOf(st.Field(i).Type()))
 }
 
+// fieldLoc returns the address of field i of the struct object obj. Array-typed fields live in the element
+// heap at a region derived from the object (so that slices of embedded arrays alias the field).
+func (e *Enc) fieldLoc(t types.Type, i int, obj Term) *Addr {
+	st := t.Underlying().(*types.Struct)
+	ft := st.Field(i).Type()
+	if arr, ok := ft.Underlying().(*types.Array); ok {
+		hn, hs := e.elemHeapName(e.sortOf(arr.Elem()))
+		return &Addr{heap: hn, hsort: hs, keys: []Term{e.fieldRegion(t, i, obj)}, typ: ft}
+	}
+	hn, hs := e.fieldHeapName(t, i)
+	return &Addr{heap: hn, hsort: hs, keys: []Term{obj}, typ: ft}
+}
+
+// fieldRegion: regions of embedded arrays live in a separate id space (top bit set), derived injectively
+// from the object identity and the field index; ordinary allocations stay below 2^48.
+func (e *Enc) fieldRegion(t types.Type, i int, obj Term) Term {
+	sh := app(SRef, "bvshl", obj, i64(8))
+	return app(SRef, "bvor", bvConst(1<<63, 64), bvAdd(sh, i64(int64(i))))
+}
+
 // mergeStates builds the state at a join: ite over incoming edges.
 func (e *Enc) mergeStates(label string, conds []Term, sts []*State) *State {
 	if len(sts) == 1 {
@@ -476,7 +497,7 @@ func (e *Enc) mergeStates(label string, conds []Term, sts []*State) *State {
 // alloc returns a fresh object identity greater than everything allocated so far.
 func (e *Enc) alloc(st *State, prefix string) Term {
 	a := e.havoc(prefix, SRef)
-	e.assume(ult(st.wm, a))
+	e.assume(and(ult(st.wm, a), ult(a, i64(1<<48))))
 	st.wm = a
 	return a
 }
@@ -484,7 +505,7 @@ func (e *Enc) alloc(st *State, prefix string) Term {
 // bumpWm models allocations by unknown code.
 func (e *Enc) bumpWm(st *State) {
 	w := e.havoc("wm", SRef)
-	e.assume(ule(st.wm, w))
+	e.assume(and(ule(st.wm, w), ult(w, i64(1<<48))))
 	st.wm = w
 }
 
@@ -496,12 +517,16 @@ func (e *Enc) assumeExisting(st *State, guard Term, v Term, t types.Type) {
 		e.assume(implies(guard, e.sliceWF(v)))
 	case *types.Pointer, *types.Map, *types.Chan:
 		e.assume(implies(guard, ule(v, st.wm)))
+	case *types.Basic:
+		if v.Sort == SStr {
+			e.assume(implies(guard, and(sle(i64(0), app(SBV64, "strlen", v)), sle(app(SBV64, "strlen", v), i64(1<<40)))))
+		}
 	}
 }
 
-// sliceWF: 0 <= len <= cap <= 2^47, off within 2^47, nil slice has zero len/cap (A3).
+// sliceWF: 0 <= len <= cap <= 2^40, off within 2^40, nil slice has zero len/cap (A3).
 func (e *Enc) sliceWF(s Term) Term {
-	lim := i64(1 << 47)
+	lim := i64(1 << 40)
 	return and(sle(i64(0), sLen(s)), sle(sLen(s), sCap(s)), sle(sCap(s), lim),
 		sle(i64(0), sOff(s)), sle(sOff(s), lim),
 		implies(eq(sReg(s), i64(0)), eq(sCap(s), i64(0))))
